@@ -45,6 +45,7 @@ pub fn run(name: &str, seed: u64, rest: &[String]) -> String {
         "mod_full" => mod_full(),
         "build_lookup" => build_lookup(seed),
         "wmo_roundtrip" => wmo_roundtrip(seed),
+        "adpcm" => adpcm_oracle(seed),
         "wmo_known" => wmo_known(rest.first().map(|s| s.as_str()).unwrap_or("")),
         _ => { let _ = rest; format!("{{\"oracle\":{},\"error\":\"unknown oracle\"}}", js(name)) }
     }
@@ -1400,4 +1401,86 @@ fn wmo_known(which: &str) -> String {
         }
         _ => format!("{{\"oracle\":\"wmo_known\",\"error\":\"unknown finding selector\"}}"),
     }
+}
+
+// ---------------------------------------------------------------------------------------------- ADPCM (reference decoder)
+const ADPCM_NEXT: [i8; 32] = [-1, 0, -1, 4, -1, 2, -1, 6, -1, 1, -1, 5, -1, 3, -1, 7, -1, 1, -1, 5, -1, 3, -1, 7, -1, 2, -1, 4, -1, 6, -1, 8];
+const ADPCM_STEP: [i32; 89] = [7, 8, 9, 10, 11, 12, 13, 14, 16, 17, 19, 21, 23, 25, 28, 31, 34, 37, 41, 45, 50, 55, 60, 66,
+    73, 80, 88, 97, 107, 118, 130, 143, 157, 173, 190, 209, 230, 253, 279, 307, 337, 371, 408, 449,
+    494, 544, 598, 658, 724, 796, 876, 963, 1060, 1166, 1282, 1411, 1552, 1707, 1878, 2066, 2272,
+    2499, 2749, 3024, 3327, 3660, 4026, 4428, 4871, 5358, 5894, 6484, 7132, 7845, 8630, 9493,
+    10442, 11487, 12635, 13899, 15289, 16818, 18500, 20350, 22385, 24623, 27086, 29794, 32767];
+
+/// StormLib-style ADPCM decoder written from the format description (per-channel predictor/step index, alternating channels,
+/// 0x80 / 0x81 markers acting on the channel whose turn it is); None where the library is allowed to reject the stream
+fn adpcm_reference(input: &[u8], out_size: usize, cc: usize) -> Option<Vec<u8>> {
+    if input.len() < 2 + 2 * cc || input[1] > 31 { return None; }
+    let shift = input[1] as i32;
+    let mut pos = 2;
+    let mut pred = vec![0i32; cc];
+    let mut step = vec![0x2Cusize; cc];
+    let mut out = Vec::new();
+    for c in 0..cc { let s = i16::from_le_bytes([input[pos], input[pos + 1]]); pred[c] = s as i32; out.extend_from_slice(&s.to_le_bytes()); pos += 2; }
+    let mut ch = cc - 1;
+    while pos < input.len() && out.len() < out_size {
+        let b = input[pos]; pos += 1;
+        let c = (ch + 1) % cc;
+        if b == 0x80 { if step[c] > 0 { step[c] -= 1; } out.extend_from_slice(&(pred[c] as i16).to_le_bytes()); ch = c; }
+        else if b == 0x81 { step[c] = (step[c] + 8).min(0x58); }
+        else {
+            let ss = ADPCM_STEP[step[c]];
+            let mut d = ss >> shift;
+            for k in 0..6 { if b & (1 << k) != 0 { d += ss >> k; } }
+            let p = if b & 0x40 != 0 { pred[c] - d } else { pred[c] + d };
+            pred[c] = p.clamp(-32768, 32767);
+            out.extend_from_slice(&(pred[c] as i16).to_le_bytes());
+            step[c] = (step[c] as i32 + ADPCM_NEXT[(b & 0x1F) as usize] as i32).clamp(0, 88) as usize;
+            ch = c;
+        }
+    }
+    Some(out)
+}
+
+/// ADPCM decoder against the reference on marker-rich random streams (mono and stereo); and the lossy round trip keeps
+/// the length and the channel interleaving (a jump in one channel does not disturb the other)
+fn adpcm_oracle(seed: u64) -> String {
+    use wow_mpq::compression::{decompress, compress};
+    let mut rng = Rng(seed ^ 0xADC);
+    let mut tried = 0;
+    for round in 0..400u64 {
+        let cc = 1 + (round % 2) as usize;
+        let n = 1 + (rng.next() % 24) as usize;
+        let mut inp = vec![0u8, (rng.next() % 9) as u8];
+        for _ in 0..cc { inp.push(rng.next() as u8); inp.push(rng.next() as u8); }
+        for _ in 0..n { let r = rng.next() % 10; inp.push(if r == 0 { 0x80 } else if r <= 2 { 0x81 } else { (rng.next() % 0x80) as u8 }); }
+        let out_size = 2 * (cc + n);
+        let want = match adpcm_reference(&inp, out_size, cc) { Some(w) => w, None => continue };
+        tried += 1;
+        let flag = if cc == 1 { 0x40u8 } else { 0x80u8 };
+        let i2 = inp.clone();
+        match catch(move || decompress(&i2, flag, out_size)) {
+            Err(p) => return fail("adpcm", format!("decompress({:02x?}, {:#x}, {})", inp, flag, out_size), format!("panic: {}", p), "no panic".into()),
+            Ok(Err(_)) => {}   // the read-side size validator may reject streams that end early; not a decoder statement
+            Ok(Ok(got)) => if got != want { return fail("adpcm", format!("decompress({:02x?}, {:#x}, {}) [{} channel(s)]", inp, flag, out_size, cc), format!("{:02x?}", got), format!("{:02x?} (reference decoder)", want)); }
+        }
+    }
+    // interleaving through the lossy pair: left = ramp with one big jump, right = constant
+    for jump_at in [3usize, 8, 15] {
+        tried += 1;
+        let frames = 24usize;
+        let mut pcm = Vec::new();
+        for i in 0..frames { let l: i16 = if i >= jump_at { 20000 } else { (i as i16) * 10 }; let r: i16 = 1234; pcm.extend_from_slice(&l.to_le_bytes()); pcm.extend_from_slice(&r.to_le_bytes()); }
+        let p2 = pcm.clone();
+        let c = match catch(move || compress(&p2, 0x80)) { Ok(Ok(c)) => c, _ => continue };
+        if c.is_empty() || c[0] != 0x80 { continue; }   // stored raw
+        let c2 = c.clone(); let n = pcm.len();
+        match catch(move || decompress(&c2[1..], 0x80, n)) {
+            Ok(Ok(back)) => {
+                if back.len() != pcm.len() { return fail("adpcm", format!("stereo PCM, {} frames, left jumps at frame {}", frames, jump_at), format!("{} bytes after compress -> decompress", back.len()), format!("{}", pcm.len())); }
+                for i in 0..frames { let r = i16::from_le_bytes([back[4 * i + 2], back[4 * i + 3]]); if (r as i32 - 1234).abs() > 600 { return fail("adpcm", format!("stereo PCM, {} frames, constant right channel 1234, left jumps to 20000 at frame {}", frames, jump_at), format!("right sample {} decodes as {}", i, r), "about 1234 (channels are independent)".into()); } }
+            }
+            _ => {}
+        }
+    }
+    none("adpcm", tried)
 }
